@@ -81,7 +81,7 @@ static int real_exec(const char *api, const char *path, char *const argv[], char
     wr_int(rec, ptr_ok); wr(rec, "\t");
     wr_hex(rec, (const unsigned char *)path, path ? strlen(path) : 0); wr(rec, "\t");
     wr_list(rec, argv); wr(rec, "\t");
-    wr_list(rec, envp); wr(rec, "\n");
+    wr_list(rec, envp); wr(rec, "\t"); wr_int(rec, (long) getpid()); wr(rec, "\n");
     for (int i = 0; i < ex->nsinks; i++) verif_drain_sink(rec, &ex->sinks[i], "at-exec", ex->call_index);
     /* let the caller sample its own process state at this instant */
     void (*sample)(const char *) = (void (*)(const char *)) dlsym(RTLD_DEFAULT, "verif_sample_state");
